@@ -618,6 +618,29 @@ func (e *specEnv) callExpr(x *ast.CallExpr) sval {
 		// allocated(ref): the reference denotes an object that exists in the current state
 		a := e.eval(x.Args[0])
 		return sval{Val{lt(a.v[len(a.v)-1], e.st.alloc.term())}, tBool, ""}
+	case "same":
+		// same(a, b): full (extensional) equality of all leaves
+		a := e.eval(x.Args[0])
+		b := e.eval(x.Args[1])
+		if len(a.v) != len(b.v) {
+			e.errorf("same: shape mismatch")
+			return sval{Val{sFalse}, tBool, ""}
+		}
+		var parts []string
+		for i := range a.v {
+			parts = append(parts, eq(a.v[i], b.v[i]))
+		}
+		return sval{Val{and(parts...)}, tBool, ""}
+	case "pow":
+		// pow(x, y): x**y as computed by big.Int.Exp(x, y, nil)
+		a := e.eval(x.Args[0])
+		b := e.eval(x.Args[1])
+		if xl, ok := litBig(a.v[0]); ok {
+			if yl, ok2 := litBig(b.v[0]); ok2 && yl.Sign() >= 0 && yl.BitLen() <= 16 {
+				return sval{Val{numBig(new(big.Int).Exp(xl, yl, nil))}, tInt, ""}
+			}
+		}
+		return sval{Val{app(c.uf("bigexp", []string{"Int", "Int", "Int"}, "Int"), a.v[0], b.v[0], "0")}, tInt, ""}
 	case "typeid":
 		lit, ok := x.Args[0].(*ast.BasicLit)
 		if !ok {
@@ -662,6 +685,14 @@ func (e *specEnv) callExpr(x *ast.CallExpr) sval {
 	case "be":
 		// be(slice): big-endian value of a byte slice; be(array) for fixed arrays
 		a := e.eval(x.Args[0])
+		if len(x.Args) == 2 {
+			n := e.eval(x.Args[1])
+			fn := c.uf("be", []string{arrSort("Int"), "Int", "Int"}, "Int")
+			return sval{Val{app(fn, a.v[0], "0", n.v[0])}, tInt, ""}
+		}
+		if a.t == nil {
+			e.errorf("be(x): x has no Go type; use be(x, n)")
+		}
 		return sval{Val{c.beValue(e.st.heap, a)}, tInt, ""}
 	case "ref":
 		// ref(p): the reference value of a pointer-like expression
